@@ -43,7 +43,8 @@ def run(ctx):
                         "content (data, strings, labels) read back through BinArchive::from_bytes",
                         "a set label equal to 'AnimClipNameTable' and clip tables / sets of other lengths than 257 are "
                         "outside the statement's domain",
-                        "names are taken from the lossless Shift-JIS domain; the codec (encoding_rs) is trusted"]
+                        "every compared parse is preceded, on the same thread, by failing parses of truncated copies of the same image (a parse result must depend on the image alone)",
+                        "names are taken from the lossless Shift-JIS domain; the codec (encoding_rs) is trusted; names include 63/64/65 and 127/128/129-byte ones with a double-byte character across offsets 64 and 128"]
 
 
 def replay(ctx, rp):
